@@ -1,15 +1,485 @@
 package main
 
-import "golang.org/x/tools/go/ssa"
+// Symbolic interpreter for the Plan 9 amd64 assembly of mask_amd64.s (parsed from the repository on every run).
+// Registers are 64-bit terms (X registers: two 64-bit halves), memory is the byte cells of the Go backing array the
+// pointer argument points into, placed at a virtual address whose alignment is the element index modulo 64.
+// Every access is checked against [b, b+len). An unknown mnemonic or operand form makes the path unsupported.
+
+import (
+	"fmt"
+	"regexp"
+	"strconv"
+	"strings"
+	"unsafe"
+
+	"golang.org/x/tools/go/ssa"
+)
+
+type asmInstr struct {
+	op   string
+	args []string
+	line int
+}
 
 type AsmFunc struct {
-	Name string
-	File string
+	Name   string
+	File   string
+	Instrs []asmInstr
+	Labels map[string]int
 }
 
-func ParseAsm(src, file string) map[string]*AsmFunc { return map[string]*AsmFunc{} }
+var asmTextRe = regexp.MustCompile(`^TEXT\s+·(\w+)\(SB\)`)
 
-func (m *Machine) callAsm(fr *Frame, fn *ssa.Function, af *AsmFunc, args []Value) Value {
-	m.unsupported("assembly function %s", fn)
+func ParseAsm(src, file string) map[string]*AsmFunc {
+	res := map[string]*AsmFunc{}
+	var cur *AsmFunc
+	for ln, line := range strings.Split(src, "\n") {
+		if i := strings.Index(line, "//"); i >= 0 {
+			line = line[:i]
+		}
+		line = strings.TrimSpace(line)
+		if line == "" || strings.HasPrefix(line, "#") {
+			continue
+		}
+		if m := asmTextRe.FindStringSubmatch(line); m != nil {
+			cur = &AsmFunc{Name: m[1], File: file, Labels: map[string]int{}}
+			res[m[1]] = cur
+			continue
+		}
+		if cur == nil {
+			continue
+		}
+		if strings.HasSuffix(line, ":") {
+			cur.Labels[strings.TrimSuffix(line, ":")] = len(cur.Instrs)
+			continue
+		}
+		f := strings.Fields(line)
+		op := f[0]
+		rest := strings.TrimSpace(line[len(op):])
+		var args []string
+		if rest != "" {
+			for _, a := range strings.Split(rest, ",") {
+				args = append(args, strings.TrimSpace(a))
+			}
+		}
+		cur.Instrs = append(cur.Instrs, asmInstr{op: op, args: args, line: ln + 1})
+	}
+	return res
+}
+
+type asmState struct {
+	m      *Machine
+	fr     *Frame
+	regs   map[string]*Term
+	xregs  map[string][2]*Term
+	zf, sf *Term
+	cf, of *Term
+	mem    []Value // backing array
+	base   int     // index of the first permitted byte
+	n      int     // permitted length
+	vaddr0 uint64  // virtual address of mem[0]
+	fpArgs map[int]*Term
+	ret    *Term
+	oob    int
+	steps  int
+}
+
+const asmVirtBase = 0x10000 // 64-aligned
+
+var asmMemRe = regexp.MustCompile(`^([0-9*+\-xXa-fA-F]*)\((\w+)\)$`)
+
+func evalAsmConst(s string) (int64, bool) {
+	s = strings.TrimSpace(s)
+	if s == "" {
+		return 0, true
+	}
+	// forms: 8, 0x40, 2*16
+	total := int64(1)
+	for _, part := range strings.Split(s, "*") {
+		v, err := strconv.ParseInt(strings.TrimSpace(part), 0, 64)
+		if err != nil {
+			return 0, false
+		}
+		total *= v
+	}
+	return total, true
+}
+
+func (st *asmState) unsupported(in asmInstr, why string) {
+	st.m.unsupported("assembly %s %v (line %d): %s", in.op, in.args, in.line, why)
+}
+
+// addrOf resolves a memory operand to a concrete virtual address.
+func (st *asmState) addrOf(in asmInstr, opnd string) (uint64, bool) {
+	mm := asmMemRe.FindStringSubmatch(opnd)
+	if mm == nil {
+		return 0, false
+	}
+	off, ok := evalAsmConst(mm[1])
+	if !ok {
+		return 0, false
+	}
+	r, ok := st.regs[mm[2]]
+	if !ok {
+		return 0, false
+	}
+	if !r.IsConst() {
+		st.unsupported(in, "symbolic address")
+	}
+	return r.Val + uint64(off), true
+}
+
+func (st *asmState) loadBytes(in asmInstr, addr uint64, size int) []*Term {
+	out := make([]*Term, size)
+	for i := 0; i < size; i++ {
+		idx := int64(addr) - int64(st.vaddr0) + int64(i)
+		if idx < int64(st.base) || idx >= int64(st.base+st.n) {
+			st.oob++
+			if idx < 0 || idx >= int64(len(st.mem)) {
+				out[i] = st.m.tf.Const(8, 0)
+				continue
+			}
+		}
+		out[i] = st.mem[idx].(*Term)
+	}
+	return out
+}
+
+func (st *asmState) storeBytes(in asmInstr, addr uint64, b []*Term) {
+	for i, t := range b {
+		idx := int64(addr) - int64(st.vaddr0) + int64(i)
+		if idx < int64(st.base) || idx >= int64(st.base+st.n) {
+			st.oob++
+			if idx < 0 || idx >= int64(len(st.mem)) {
+				continue
+			}
+		}
+		st.mem[idx] = t
+	}
+}
+
+func (st *asmState) bytesOf(t *Term) []*Term {
+	n := int(t.W) / 8
+	out := make([]*Term, n)
+	for i := 0; i < n; i++ {
+		out[i] = st.m.tf.Extract(t, uint8(8*i+7), uint8(8*i))
+	}
+	return out
+}
+
+func (st *asmState) fromBytes(b []*Term) *Term {
+	r := b[len(b)-1]
+	for i := len(b) - 2; i >= 0; i-- {
+		r = st.m.tf.Concat(r, b[i])
+	}
+	return r
+}
+
+// read an operand as a term of width w bits
+func (st *asmState) read(in asmInstr, opnd string, w uint8) *Term {
+	tf := st.m.tf
+	if strings.HasPrefix(opnd, "$") {
+		v, ok := evalAsmConst(opnd[1:])
+		if !ok {
+			st.unsupported(in, "immediate")
+		}
+		return tf.Const(w, uint64(v))
+	}
+	if r, ok := st.regs[opnd]; ok {
+		return tf.Resize(r, w, false)
+	}
+	if strings.HasSuffix(opnd, "(FP)") {
+		off := st.fpOffset(in, opnd)
+		a, ok := st.fpArgs[off]
+		if !ok {
+			st.unsupported(in, "unknown FP argument")
+		}
+		return tf.Resize(a, w, false)
+	}
+	if addr, ok := st.addrOf(in, opnd); ok {
+		return st.fromBytes(st.loadBytes(in, addr, int(w)/8))
+	}
+	st.unsupported(in, "operand "+opnd)
 	return nil
 }
+
+func (st *asmState) fpOffset(in asmInstr, opnd string) int {
+	// name+off(FP)
+	i := strings.Index(opnd, "+")
+	j := strings.Index(opnd, "(FP)")
+	if i < 0 || j < 0 {
+		st.unsupported(in, "FP operand")
+	}
+	v, err := strconv.Atoi(opnd[i+1 : j])
+	if err != nil {
+		st.unsupported(in, "FP offset")
+	}
+	return v
+}
+
+func (st *asmState) write(in asmInstr, opnd string, v *Term) {
+	tf := st.m.tf
+	if _, ok := st.regs[opnd]; ok || isGPR(opnd) {
+		// 32-bit writes zero-extend; 8/16-bit register writes are not used by this file
+		switch v.W {
+		case 64:
+			st.regs[opnd] = v
+		case 32:
+			st.regs[opnd] = tf.Zext(v, 64)
+		default:
+			st.unsupported(in, "narrow register write")
+		}
+		return
+	}
+	if strings.HasSuffix(opnd, "(FP)") {
+		st.ret = v
+		return
+	}
+	if addr, ok := st.addrOf(in, opnd); ok {
+		st.storeBytes(in, addr, st.bytesOf(v))
+		return
+	}
+	st.unsupported(in, "destination "+opnd)
+}
+
+func isGPR(r string) bool {
+	switch r {
+	case "AX", "BX", "CX", "DX", "SI", "DI", "R8", "R9", "R10", "R11", "R12", "R13", "R14", "R15":
+		return true
+	}
+	return false
+}
+
+func isXReg(r string) bool {
+	return len(r) >= 2 && r[0] == 'X' && r[1] >= '0' && r[1] <= '9'
+}
+
+func (st *asmState) setFlagsLogic(r *Term) {
+	tf := st.m.tf
+	st.zf = tf.Eq(r, tf.Const(r.W, 0))
+	st.sf = tf.Eq(tf.Extract(r, r.W-1, r.W-1), tf.Const(1, 1))
+	st.cf = tf.False
+	st.of = tf.False
+}
+
+// flags of a - b
+func (st *asmState) setFlagsSub(a, b *Term) *Term {
+	tf := st.m.tf
+	r := tf.Sub(a, b)
+	st.zf = tf.Eq(r, tf.Const(r.W, 0))
+	st.sf = tf.Slt(r, tf.Const(r.W, 0))
+	st.cf = tf.Ult(a, b)
+	sa := tf.Slt(a, tf.Const(a.W, 0))
+	sb := tf.Slt(b, tf.Const(b.W, 0))
+	sr := tf.Slt(r, tf.Const(r.W, 0))
+	// overflow: operands have different signs and the result's sign differs from a's
+	st.of = tf.And(tf.Not(tf.Eq(sa, sb)), tf.Not(tf.Eq(sr, sa)))
+	return r
+}
+
+func (st *asmState) setFlagsAdd(a, b *Term) *Term {
+	tf := st.m.tf
+	r := tf.Add(a, b)
+	st.zf = tf.Eq(r, tf.Const(r.W, 0))
+	st.sf = tf.Slt(r, tf.Const(r.W, 0))
+	st.cf = tf.Ult(r, a)
+	sa := tf.Slt(a, tf.Const(a.W, 0))
+	sb := tf.Slt(b, tf.Const(b.W, 0))
+	sr := tf.Slt(r, tf.Const(r.W, 0))
+	st.of = tf.And(tf.Eq(sa, sb), tf.Not(tf.Eq(sr, sa)))
+	return r
+}
+
+func (m *Machine) locateElem(p *Value) ([]Value, int, bool) {
+	for _, ref := range m.allocs {
+		s := ref.s
+		if len(s) == 0 {
+			continue
+		}
+		s = s[:cap(s)]
+		lo := uintptr(unsafe.Pointer(&s[0]))
+		hi := lo + uintptr(len(s))*unsafe.Sizeof(s[0])
+		x := uintptr(unsafe.Pointer(p))
+		if x >= lo && x < hi {
+			return s, int((x - lo) / unsafe.Sizeof(s[0])), true
+		}
+	}
+	return nil, 0, false
+}
+
+func (m *Machine) callAsm(fr *Frame, fn *ssa.Function, af *AsmFunc, args []Value) Value {
+	m.noteStub("assembly " + af.File + ":" + af.Name + " interpreted by the amd64 model")
+	tf := m.tf
+	st := &asmState{m: m, fr: fr, regs: map[string]*Term{}, xregs: map[string][2]*Term{}, fpArgs: map[int]*Term{}}
+	st.zf, st.sf, st.cf, st.of = tf.False, tf.False, tf.False, tf.False
+	// argument layout: b *byte at 0, len int at 8, key uint32 at 16, ret at 24
+	if len(args) != 3 {
+		m.unsupported("assembly function with unexpected signature: %s", fn)
+	}
+	p := args[0].(*Value)
+	n := int(m.concreteInt(fr, args[1].(*Term), "asm len"))
+	if p == nil {
+		if n != 0 {
+			m.runtimePanic(fr, "nil pointer passed to assembly with non-zero length")
+		}
+		st.mem, st.base, st.vaddr0 = nil, 0, asmVirtBase
+		st.fpArgs[0] = tf.Const(64, 0)
+	} else {
+		s, idx, ok := m.locateElem(p)
+		if !ok {
+			m.unsupported("pointer argument of assembly function does not point into a tracked allocation")
+		}
+		st.mem, st.base, st.vaddr0 = s, idx, asmVirtBase
+		st.fpArgs[0] = tf.Const(64, asmVirtBase+uint64(idx))
+	}
+	st.n = n
+	st.fpArgs[8] = tf.Const(64, uint64(n))
+	st.fpArgs[16] = tf.Zext(args[2].(*Term), 64)
+	pc := 0
+	for {
+		st.steps++
+		if st.steps > 200000 {
+			panic(pathAbort{"budget", "assembly step budget exceeded"})
+		}
+		if pc >= len(af.Instrs) {
+			m.unsupported("assembly fell off the end of %s", af.Name)
+		}
+		in := af.Instrs[pc]
+		pc++
+		jump := func(cond *Term) {
+			if m.Decide(fr, cond) {
+				t, ok := af.Labels[in.args[0]]
+				if !ok {
+					st.unsupported(in, "unknown label")
+				}
+				pc = t
+			}
+		}
+		switch in.op {
+		case "MOVQ":
+			if isXReg(in.args[1]) {
+				st.xregs[in.args[1]] = [2]*Term{st.read(in, in.args[0], 64), tf.Const(64, 0)}
+			} else {
+				st.write(in, in.args[1], st.read(in, in.args[0], 64))
+			}
+		case "MOVL":
+			st.write(in, in.args[1], st.read(in, in.args[0], 32))
+		case "SHLQ":
+			d := st.read(in, in.args[1], 64)
+			r := tf.Shl(d, st.read(in, in.args[0], 64))
+			st.write(in, in.args[1], r)
+			st.setFlagsLogic(r)
+		case "ORQ":
+			r := tf.BvOr(st.read(in, in.args[1], 64), st.read(in, in.args[0], 64))
+			st.write(in, in.args[1], r)
+			st.setFlagsLogic(r)
+		case "CMPQ":
+			st.setFlagsSub(st.read(in, in.args[0], 64), st.read(in, in.args[1], 64))
+		case "TESTQ":
+			st.setFlagsLogic(tf.BvAnd(st.read(in, in.args[0], 64), st.read(in, in.args[1], 64)))
+		case "XORB", "XORW", "XORL", "XORQ":
+			w := map[string]uint8{"XORB": 8, "XORW": 16, "XORL": 32, "XORQ": 64}[in.op]
+			r := tf.BvXor(st.read(in, in.args[1], w), st.read(in, in.args[0], w))
+			if isGPR(in.args[1]) {
+				if w < 32 {
+					st.unsupported(in, "narrow register destination")
+				}
+				st.write(in, in.args[1], r)
+			} else {
+				st.write(in, in.args[1], r)
+			}
+			st.setFlagsLogic(r)
+		case "INCQ":
+			cf := st.cf
+			r := st.setFlagsAdd(st.read(in, in.args[0], 64), tf.Const(64, 1))
+			st.cf = cf
+			st.write(in, in.args[0], r)
+		case "DECQ":
+			cf := st.cf
+			r := st.setFlagsSub(st.read(in, in.args[0], 64), tf.Const(64, 1))
+			st.cf = cf
+			st.write(in, in.args[0], r)
+		case "ADDQ":
+			r := st.setFlagsAdd(st.read(in, in.args[1], 64), st.read(in, in.args[0], 64))
+			st.write(in, in.args[1], r)
+		case "SUBQ":
+			r := st.setFlagsSub(st.read(in, in.args[1], 64), st.read(in, in.args[0], 64))
+			st.write(in, in.args[1], r)
+		case "ROLL":
+			k, ok := evalAsmConst(strings.TrimPrefix(in.args[0], "$"))
+			if !ok || !strings.HasPrefix(in.args[0], "$") {
+				st.unsupported(in, "rotate count")
+			}
+			k &= 31
+			x := st.read(in, in.args[1], 32)
+			r := x
+			if k != 0 {
+				r = tf.BvOr(tf.Shl(x, tf.Const(32, uint64(k))), tf.Lshr(x, tf.Const(32, uint64(32-k))))
+			}
+			st.write(in, in.args[1], r)
+		case "PUNPCKLQDQ":
+			src, okS := st.xregs[in.args[0]]
+			dst, okD := st.xregs[in.args[1]]
+			if !okS || !okD {
+				st.unsupported(in, "uninitialised X register")
+			}
+			st.xregs[in.args[1]] = [2]*Term{dst[0], src[0]}
+		case "MOVOU":
+			if isXReg(in.args[1]) {
+				addr, ok := st.addrOf(in, in.args[0])
+				if !ok {
+					st.unsupported(in, "source")
+				}
+				b := st.loadBytes(in, addr, 16)
+				st.xregs[in.args[1]] = [2]*Term{st.fromBytes(b[:8]), st.fromBytes(b[8:])}
+			} else if isXReg(in.args[0]) {
+				addr, ok := st.addrOf(in, in.args[1])
+				if !ok {
+					st.unsupported(in, "destination")
+				}
+				x, ok := st.xregs[in.args[0]]
+				if !ok {
+					st.unsupported(in, "uninitialised X register")
+				}
+				st.storeBytes(in, addr, append(st.bytesOf(x[0]), st.bytesOf(x[1])...))
+			} else {
+				st.unsupported(in, "operands")
+			}
+		case "PXOR":
+			src, okS := st.xregs[in.args[0]]
+			dst, okD := st.xregs[in.args[1]]
+			if !okS || !okD {
+				st.unsupported(in, "uninitialised X register")
+			}
+			st.xregs[in.args[1]] = [2]*Term{tf.BvXor(dst[0], src[0]), tf.BvXor(dst[1], src[1])}
+		case "JMP":
+			jump(tf.True)
+		case "JZ", "JE", "JEQ":
+			jump(st.zf)
+		case "JNZ", "JNE":
+			jump(tf.Not(st.zf))
+		case "JLE":
+			jump(tf.Or(st.zf, tf.Not(tf.Eq(st.sf, st.of))))
+		case "JL", "JLT":
+			jump(tf.Not(tf.Eq(st.sf, st.of)))
+		case "JGE":
+			jump(tf.Eq(st.sf, st.of))
+		case "JG", "JGT":
+			jump(tf.And(tf.Not(st.zf), tf.Eq(st.sf, st.of)))
+		case "JAE", "JCC":
+			jump(tf.Not(st.cf))
+		case "JB", "JCS":
+			jump(st.cf)
+		case "RET":
+			m.asmOOB += st.oob
+			if st.ret == nil {
+				m.unsupported("assembly returned without writing its result")
+			}
+			return tf.Resize(st.ret, 32, false)
+		default:
+			st.unsupported(in, "unknown mnemonic")
+		}
+	}
+}
+
+var _ = fmt.Sprintf
